@@ -99,6 +99,18 @@ def _aff_mul(k, P, p, a):
     return R
 
 
+def comb_ok(n, dep, endom):
+    """In a group of 7..8-bit order a fixed-base comb table entry sum_{j in S} 2^(l*j) G can be the
+    identity; ep_mul_pre_combs (called when the curve is installed) then fails in ep_norm_sim, which
+    cannot normalise the identity (see the known finding C03-sim-table-infinity).  This cannot happen
+    for cryptographic orders; tiny worlds where it does are skipped."""
+    l = -(-n.bit_length() // (2 * dep if endom else dep))
+    for S in range(1, 1 << dep):
+        if sum(1 << (l * j) for j in range(dep) if (S >> j) & 1) % n == 0:
+            return False
+    return True
+
+
 def tiny_world(p, a, b, fpb=8, bnbits=32, wd=4, dep=5, dgb=8, sys=PROJC, endom=False, want_h=1):
     """Construct the spec of a tiny curve y^2 = x^3 + ax + b over F_p whose group has order h*n,
     n prime; returns None if the curve does not have that shape."""
@@ -109,7 +121,7 @@ def tiny_world(p, a, b, fpb=8, bnbits=32, wd=4, dep=5, dgb=8, sys=PROJC, endom=F
     if order >= (1 << fpb) or order % want_h:
         return None
     n = order // want_h
-    if not _is_prime(n) or (want_h > 1 and n <= want_h):
+    if not _is_prime(n) or (want_h > 1 and n <= want_h) or not comb_ok(n, dep, endom) or not comb_ok(n, dep, False):
         return None
     g = None
     for P in pts:
@@ -339,6 +351,21 @@ def group_cases_xy(cv, rng, pairs, ops=("ep_add", "ep_sub", "ep_add_jacob", "ep_
             a = xy_token(cv, P, s, rng) if P else inf_token(s, rng)
             b = xy_token(cv, Q, s, rng) if Q else inf_token(s, rng)
             cases.append("%s %s %d %s %s" % (op, cv.spec, rng.choice([0, 0, 1, 2]), a, b))
+    return cases
+
+
+def unary_cases_xy(cv, rng, pts):
+    """Unary operations and comparisons on ALL points of a tiny curve with cofactor."""
+    cases = []
+    c = cv.spec
+    for P in pts:
+        for op, s in (("ep_dbl_basic", BASIC), ("ep_dbl_projc", PROJC), ("ep_dbl_jacob", JACOB), ("ep_dbl", cv.sys),
+                      ("ep_neg", rng.choice([PROJC, JACOB])), ("ep_norm", rng.choice([PROJC, JACOB]))):
+            cases.append("%s %s %d %s" % (op, c, rng.choice([0, 1]), xy_token(cv, P, s, rng)))
+        Q = rng.choice(pts)
+        s1, s2 = rng.choice([BASIC, PROJC, JACOB]), rng.choice([BASIC, PROJC, JACOB])
+        cases.append("ep_cmp %s 0 %s %s" % (c, xy_token(cv, P, s1, rng), xy_token(cv, rng.choice([P, Q]), s2, rng)))
+        cases.append("ep_on_curve %s 0 %s" % (c, xy_token(cv, P, s1, rng)))
     return cases
 
 
